@@ -4,7 +4,7 @@ line), and the unchanged tree must pass. One scratch worktree, sequential, so th
 usage: selftest.py [ids...]   (exit 0 iff every listed change is caught or is listed in EXPECTED_MISSES)"""
 import json, os, subprocess, sys, shutil
 ENV = dict(os.environ, GOFLAGS="-mod=mod", GOPROXY="off", GOSUMDB="off", GOTOOLCHAIN="local")
-EXPECTED_MISSES = {"C20-A": "the block-scanning cursor of the connector is outside the verified set"}
+EXPECTED_MISSES = {}
 WT, OUT = "/tmp/selfwt", "/tmp/selfout"
 def sh(cmd, cwd=None, env=ENV):
     return subprocess.run(cmd, shell=True, capture_output=True, text=True, env=env, cwd=cwd)
